@@ -406,13 +406,13 @@ TRUSTED_COMMON = [
 ]
 
 
-def proof_stage(run, prop, targets, allow_axioms=()):
+def proof_stage(run, prop, targets, allow_axioms=(), pins=None):
     """Build the property's theories, check pins and assumptions, grep."""
     bad = grep_forbidden()
     if bad:
         raise Broken("forbidden-constructs", "\n".join(bad))
     coq_make(targets)
-    n, axioms, names = check_pins(prop, allow_axioms)
+    n, axioms, names = check_pins(pins or prop, allow_axioms)
     run.cov["obligations"] += n
     run.cov["discharged"] += n
     run.cov["theorems"] = names
@@ -420,6 +420,6 @@ def proof_stage(run, prop, targets, allow_axioms=()):
     run.cov["checker_cmd"] = "make -C coq -j%d %s && coqc coq/pins/%s.v (Check-pinned statements + Print Assumptions)" % (
         NCPU,
         " ".join("theories/" + t[:-2] + ".vo" for t in targets),
-        prop,
+        pins or prop,
     )
     run.cov["trusted_base"] = TRUSTED_COMMON + (["standard-library axioms: " + ", ".join(axioms)] if axioms else ["axioms: none (every pinned theorem is closed under the global context)"])
